@@ -18,4 +18,23 @@ def c06_tables(scratch, tier, outdir):
     return r
 
 
-AUX = {"C06": [c06_tables]}
+def c14_pristine(scratch, tier, outdir):
+    """premise of the C14 frame argument: the pristine tree has forbid(unsafe_code) and no interior-mutability /
+    mutable-static site at all.  Syntactic (not a solver query): a hit makes C14 inconclusive, never a violation."""
+    import time
+    t0 = time.time()
+    pr = scratch.pristine
+    bad = list(pr.get("mutable_state_sites", []))
+    if not pr.get("forbid_unsafe", False):
+        bad.append("src/lib.rs: #![forbid(unsafe_code)] is missing")
+    r = {"id": "c14_pristine_scan", "wall_s": round(time.time() - t0, 2), "queries": 0, "obligations": 1,
+         "functions_encoded": "all files under src/ (text scan for unsafe, static mut, Cell, RefCell, Atomic*, thread_local, Once*, Mutex, RwLock, LazyLock)",
+         "bounds": "syntactic premise check, not a solver query", "distinct": 0, "solver_s": 0}
+    if bad:
+        r.update(status="INCONCLUSIVE", reason="mutable-state sites in the tree: the frame argument of C14 does not cover them: %s" % "; ".join(bad[:5]))
+    else:
+        r.update(status="PASS", reason="")
+    return r
+
+
+AUX = {"C06": [c06_tables], "C14": [c14_pristine]}
